@@ -190,6 +190,8 @@ else:
                     len(sts) == 2 and not why, key='; '.join(why), detail='; '.join(why), loc=f.loc())
     # ---- 3. clear-after-set
     clear_after_set(ix, R)
+    from rules.common import cache_state_cleared
+    cache_state_cleared(ix, R, '3.clear.state')
     stateless_discover(ix, R)
     hitran(ix, R)
     # ---- 4. discover passes the mode
